@@ -37,6 +37,8 @@ func main() {
 		err = genOwnerFlow(os.Args[2], os.Args[3])
 	case "arithC14", "arithC07", "arithC13", "arithC03": // arithmetic ties: listed Go functions -> Gallina over Base/Zdec.v, see arith.go
 		err = genArith(os.Args[1], os.Args[2], os.Args[3])
+	case "arithC20", "arithC16", "arithC05", "arithC12", "arithC10": // second batch of arithmetic ties, specs in arith2.go
+		err = genArith(os.Args[1], os.Args[2], os.Args[3])
 	default:
 		err = fmt.Errorf("unknown table %q", os.Args[1])
 	}
